@@ -318,6 +318,30 @@ fn probes(data: &[Vec<String>]) -> Vec<String> {
             }
         }
     }
+    // every prefix of length 1..3 of every word, and every ordered pair of word initials: the
+    // index is a prefix n-gram index, so these are the queries with the most ties - also ties
+    // between constants that live in different data files
+    let mut initials: Vec<char> = Vec::new();
+    for t in data {
+        for w in t {
+            if !typeable(std::slice::from_ref(w)) {
+                continue;
+            }
+            let cs: Vec<char> = w.chars().collect();
+            for k in 1..=3usize.min(cs.len()) {
+                v.push(cs[..k].iter().collect());
+            }
+            if !initials.contains(&cs[0]) {
+                initials.push(cs[0]);
+            }
+        }
+    }
+    for a in &initials {
+        for b in &initials {
+            v.push(format!("{a} {b}"));
+        }
+    }
+    v.retain(|p| p != "to" && !p.starts_with("to "));
     v.sort();
     v.dedup();
     v
